@@ -682,9 +682,9 @@ def ortho_case(ctx, tier, struct, mods=None, qconjs=(1, -1), cplx=False, subset=
 # ------------------------------------------------------------------------------------------------------------------
 def CASES(tier, seed):
     cases = []
-    O = dict(max_paths=60000, max_wall_s=200, validate_paths=2, hard_timeout_s=230)
+    O = dict(max_paths=60000, max_wall_s=200, validate_paths=2, hard_timeout_s=230, skip_repeated_violation=True)
     if tier == 'thorough':
-        O = dict(max_paths=400000, max_wall_s=1500, validate_paths=2, hard_timeout_s=1700)
+        O = dict(max_paths=400000, max_wall_s=1500, validate_paths=2, hard_timeout_s=1700, skip_repeated_violation=True)
 
     def add(fn, name, **params):
         cases.append(dict(name=name, fn=fn, params=params, opts=dict(O)))
